@@ -4,6 +4,7 @@ import (
 	"fmt"
 	"net"
 	"runtime"
+	"runtime/debug"
 	"sync"
 	"sync/atomic"
 	"testing"
@@ -17,7 +18,7 @@ import (
 )
 
 type c12Conn struct {
-	State string `json:"state"` // handler-gated handler-slow just-closed onclose-held pipelined-slow
+	State string `json:"state"` // handler-gated handler-slow just-closed onclose-held pipelined-slow unbind-gated unbind-slow
 	How   string `json:"how"`   // fin unbind rst
 	K     int    `json:"k"`
 	TLS   bool   `json:"tls,omitempty"` // the connection is a TLS session (scenario-wide: the server then runs with a TLS config)
@@ -33,6 +34,9 @@ type c12Case struct {
 	DelayUs int `json:"delay_us,omitempty"`
 	StepUs  int `json:"step_us,omitempty"`
 	Rounds  int `json:"rounds,omitempty"`
+	// Late: two dialers connect up to this many silent clients each WHILE Stop is being called (orders
+	// with a running server only)
+	Late int `json:"late,omitempty"`
 }
 
 func c12Exec(c c12Case, st *lab.Stats) *lab.Fail {
@@ -76,6 +80,16 @@ func c12Exec(c c12Case, st *lab.Stats) *lab.Fail {
 		}
 		mu.Unlock()
 		if kind == "unbind" {
+			// the handler of the Unbind route is a handler too: it may still be running when Stop is called
+			if tag < len(c.Conns) && (c.Conns[tag].State == "unbind-gated" || c.Conns[tag].State == "unbind-slow") {
+				atomic.AddInt64(&inflight, 1)
+				if c.Conns[tag].State == "unbind-gated" {
+					g.wait(20 * time.Second)
+				} else {
+					time.Sleep(time.Duration(c.HoldMs) * time.Millisecond)
+				}
+				atomic.AddInt64(&inflight, -1)
+			}
 			return
 		}
 		if n >= 10 && tag < len(c.Conns) {
@@ -295,8 +309,11 @@ func c12Exec(c c12Case, st *lab.Stats) *lab.Fail {
 		if cs.State == "pipelined-slow" {
 			continue // its Unbind is already on the wire; the socket stays open until the server closes it
 		}
-		if cs.How == "unbind" {
+		if cs.How == "unbind" || cs.State == "unbind-gated" || cs.State == "unbind-slow" {
 			_ = clients[tag].Send(simpleReq("unbind", int64(tag)*tagStride+99).Bytes())
+			if cs.State == "unbind-gated" || cs.State == "unbind-slow" {
+				time.Sleep(2 * time.Millisecond) // let the Unbind be read before the socket goes away
+			}
 		}
 		if cs.How == "rst" {
 			rst(rawConn(clients[tag].C)) // the client vanishes: over TLS the server cannot even send its close_notify
@@ -310,9 +327,38 @@ func c12Exec(c c12Case, st *lab.Stats) *lab.Fail {
 		time.Sleep(time.Duration(c.HoldMs) * time.Millisecond)
 		g.open()
 	}()
+	var lateMu sync.Mutex
+	var lateConns []net.Conn
+	var lateWg sync.WaitGroup
+	if c.Late > 0 && c.Order != "before-run" && c.Order != "concurrent-start" {
+		// a finalizer must not close what the server forgot to close
+		defer debug.SetGCPercent(debug.SetGCPercent(-1))
+		for g := 0; g < 2; g++ {
+			lateWg.Add(1)
+			go func() {
+				defer lateWg.Done()
+				for k := 0; k < c.Late; k++ {
+					cn, err := net.DialTimeout("tcp", addr, time.Second)
+					if err != nil {
+						return
+					}
+					lateMu.Lock()
+					lateConns = append(lateConns, cn)
+					lateMu.Unlock()
+				}
+			}()
+		}
+		time.Sleep(time.Duration(c.Spin%5) * 100 * time.Microsecond)
+	}
+	defer func() {
+		lateWg.Wait()
+		for _, cn := range lateConns {
+			cn.Close()
+		}
+	}()
 	var ok1, ok2 bool
 	var err1, err2 error
-	var atReturnInflight, atReturnDone int64
+	var atReturnInflight, atReturnDone, atReturnStarted int64
 	switch c.Order {
 	case "twice-concurrent":
 		var wg sync.WaitGroup
@@ -320,13 +366,13 @@ func c12Exec(c c12Case, st *lab.Stats) *lab.Fail {
 		go func() {
 			defer wg.Done()
 			ok1, err1 = timedStop()
-			atReturnInflight, atReturnDone = atomic.LoadInt64(&inflight), atomic.LoadInt64(&oncloseDone)
+			atReturnInflight, atReturnDone, atReturnStarted = atomic.LoadInt64(&inflight), atomic.LoadInt64(&oncloseDone), atomic.LoadInt64(&oncloseStarted)
 		}()
 		go func() { defer wg.Done(); ok2, err2 = timedStop() }()
 		wg.Wait()
 	default:
 		ok1, err1 = timedStop()
-		atReturnInflight, atReturnDone = atomic.LoadInt64(&inflight), atomic.LoadInt64(&oncloseDone)
+		atReturnInflight, atReturnDone, atReturnStarted = atomic.LoadInt64(&inflight), atomic.LoadInt64(&oncloseDone), atomic.LoadInt64(&oncloseStarted)
 		ok2, err2 = true, nil
 		if c.Order == "twice-seq" {
 			ok2, err2 = timedStop()
@@ -344,19 +390,56 @@ func c12Exec(c c12Case, st *lab.Stats) *lab.Fail {
 	if atReturnInflight != 0 {
 		return lab.Failf("handler-running-after-stop", "%s: at the instant Stop returned %d handlers were still running", desc, atReturnInflight)
 	}
-	if atReturnDone != accepted {
-		return lab.Failf("onclose-pending-after-stop", "%s: at the instant Stop returned only %d of %d OnClose callbacks had completed (%d started)", desc, atReturnDone, accepted, atomic.LoadInt64(&oncloseStarted))
+	lateWg.Wait()
+	lateMu.Lock()
+	late := append([]net.Conn{}, lateConns...)
+	lateMu.Unlock()
+	if len(late) > 0 {
+		desc += fmt.Sprintf(", %d silent clients connected while Stop was being called", len(late))
+		st.Class("late-connections")
+	}
+	if (len(late) == 0 && atReturnDone != accepted) || atReturnDone < accepted || atReturnDone != atReturnStarted {
+		return lab.Failf("onclose-pending-after-stop", "%s: at the instant Stop returned only %d of %d OnClose callbacks had completed (%d started)", desc, atReturnDone, accepted, atReturnStarted)
 	}
 	ret, rerr := waitRun()
-	return portChecks(ret, rerr)
+	if f := portChecks(ret, rerr); f != nil {
+		return f
+	}
+	if len(late) > 0 {
+		// Stop and Run have returned: whatever the server accepted is closed, what it did not accept was reset
+		// when the listener went away - no client that managed to connect is left with an open connection
+		buf := make([]byte, 256)
+		for i, cn := range late {
+			_ = cn.SetReadDeadline(time.Now().Add(3 * time.Second))
+			for {
+				_, err := cn.Read(buf)
+				if err == nil {
+					continue // e.g. the notice of disconnection
+				}
+				if ne, ok := err.(net.Error); ok && ne.Timeout() {
+					return lab.Failf("connection-left-open-after-stop", "%s: client #%d of them is still connected 3 s after Stop and Run have returned: the server accepted the connection and never closed it", desc, i)
+				}
+				break
+			}
+		}
+		if d := atomic.LoadInt64(&oncloseDone); d != atReturnDone {
+			return lab.Failf("onclose-after-stop", "%s: %d OnClose callbacks had completed when Stop returned, %d a little later: connections were still being closed after Stop had returned", desc, atReturnDone, d)
+		}
+	}
+	return nil
 }
 
 func TestC12(t *testing.T) {
 	lab.Prop[c12Case]{
 		ID: "C12", Part: "stop",
-		Rule: "rapid: order of Stop relative to Run in {before Run, concurrently with Run's start (a sweep of 8..24 busy-wait delays of 0..1 ms after Run was started, plus 0..200 scheduler yields), after Ready, twice in sequence, twice concurrently} x 0..6 connections whose state at Stop time is handler held on a gate / handler sleeping / client just closed / OnClose callback held / requests + Unbind pipelined in one write with slow handlers (nobody waits for the answers); plain or TLS sessions; every client has closed (FIN, Unbind or RST) before Stop is called and the gate is opened by a timer 20..250 ms after Stop was called, never by Stop's return; oracle sampled at the instant EACH Stop call returns: in-flight handler counter == 0 and completed OnClose callbacks == accepted connections; after Run returned (must be nil): dial refused and the port can be bound again; second Stop harmless; non-trivial = >= 1 handler/OnClose still held when Stop was called, or Stop overlapped/preceded Run; distinct by hash",
+		Rule: "rapid: order of Stop relative to Run in {before Run, concurrently with Run's start (a sweep of 8..24 busy-wait delays of 0..1 ms after Run was started, plus 0..200 scheduler yields), after Ready, twice in sequence, twice concurrently} x 0..6 connections whose state at Stop time is handler held on a gate / handler sleeping / client just closed / OnClose callback held / requests + Unbind pipelined in one write with slow handlers (nobody waits for the answers) / the handler of the Unbind route itself held on the gate or sleeping; plain or TLS sessions; optionally 2 x 2..128 silent clients that connect WHILE Stop is being called (garbage collector off, a finalizer is not a close); every other client has closed (FIN, Unbind or RST) before Stop is called and the gate is opened by a timer 20..250 ms after Stop was called, never by Stop's return; oracle sampled at the instant EACH Stop call returns: in-flight handler counter == 0 and completed OnClose callbacks == accepted connections; after Run returned (must be nil): dial refused and the port can be bound again, every late client that managed to connect sees its connection closed within 3 s and no OnClose callback completes after Stop returned; second Stop harmless; non-trivial = >= 1 handler/OnClose still held when Stop was called, or Stop overlapped/preceded Run; distinct by hash",
 		Gen: func(t *rapid.T) c12Case {
+			late := 0
+			if rapid.IntRange(0, 2).Draw(t, "late") == 0 {
+				late = rapid.SampledFrom([]int{2, 8, 32, 128}).Draw(t, "nlate")
+			}
 			c := c12Case{
+				Late:   late,
 				Order:  rapid.SampledFrom([]string{"after-ready", "after-ready", "after-ready", "before-run", "concurrent-start", "concurrent-start", "twice-seq", "twice-concurrent"}).Draw(t, "order"),
 				Spin:   rapid.SampledFrom([]int{0, 1, 2, 5, 10, 50, 200}).Draw(t, "spin"),
 				HoldMs: rapid.SampledFrom([]int{20, 60, 120, 250}).Draw(t, "hold"),
@@ -370,7 +453,7 @@ func TestC12(t *testing.T) {
 				n := rapid.IntRange(0, 6).Draw(t, "nconns")
 				for i := 0; i < n; i++ {
 					c.Conns = append(c.Conns, c12Conn{
-						State: rapid.SampledFrom([]string{"handler-gated", "handler-gated", "handler-slow", "just-closed", "onclose-held", "pipelined-slow", "pipelined-slow"}).Draw(t, "state"),
+						State: rapid.SampledFrom([]string{"handler-gated", "handler-gated", "handler-slow", "just-closed", "onclose-held", "pipelined-slow", "pipelined-slow", "unbind-gated", "unbind-slow"}).Draw(t, "state"),
 						How:   rapid.SampledFrom([]string{"fin", "unbind", "rst"}).Draw(t, "how"),
 						K:     rapid.IntRange(1, 3).Draw(t, "k"),
 					})
